@@ -125,12 +125,18 @@ def type_width(t):
 
 
 def ext_name_ok(s):
-    """XML namespace / attribute names: not empty, not starting with xml (any case), only a-z A-Z 0-9 - _"""
+    """XML namespace / attribute names: not empty, not starting with xml (any case), only a-z A-Z 0-9 - _,
+    not starting with a digit or a dash"""
     if s == "":
         return False
     if s.lower().startswith("xml"):
         return False
+    if s[0] in "0123456789-":
+        return False
     return all((c.isascii() and c.isalnum()) or c in "-_" for c in s)
+
+
+RESERVED_URLS = ("http://www.w3.org/XML/1998/namespace", "http://www.w3.org/2000/xmlns/")
 
 
 def proto_rule_violations(proto, registered):
@@ -173,6 +179,10 @@ def proto_rule_violations(proto, registered):
                 bad.append("extension-name-malformed")
             elif n[1] not in registered:
                 bad.append("extension-unregistered")
+    for _, t in proto:
+        if type_kind(t) in ("I", "S") and type_range(t)[0] > type_range(t)[1]:
+            bad.append("empty-integer-range")
+            break
     bits = sum(type_width(t) for _, t in proto)
     if bits == 0:
         bad.append("all-zero-width")
@@ -273,7 +283,7 @@ def interpret(calls, results):
        blobs: [(offset, length, data)], images: [list of (data, mask)] per IFIN o,
        anomalies: [(class, index, text)] call patterns whose outcome the property judges (repeat finalize...)
        final_ok: the last top-level call is FIN and returned o"""
-    registered = set()
+    registered, urls = set(), set()
     out = dict(accepted_unrepresentable=[], clouds=[], blobs=[], images=[], anomalies=[], final_ok=False,
                fin_count=0, writes_after_fin=False)
     cur_pc = cur_img = None
@@ -299,7 +309,12 @@ def interpret(calls, results):
                     out["accepted_unrepresentable"].append((i, "extension namespace %r is malformed" % c[1]))
                 if c[1] in registered:
                     out["accepted_unrepresentable"].append((i, "extension namespace %r registered twice" % c[1]))
+                if c[2] in RESERVED_URLS:
+                    out["accepted_unrepresentable"].append((i, "extension URL %r is reserved by XML" % c[2]))
+                if c[2] in urls:
+                    out["accepted_unrepresentable"].append((i, "extension URL %r registered twice" % c[2]))
                 registered.add(c[1])
+                urls.add(c[2])
         elif k == "BLOB":
             if ok:
                 o, l = r[1:].split(":")
@@ -414,6 +429,18 @@ def drop_incomplete(lim):
     return "-" if lim == "-" or "-" in lim.split("/") else lim
 
 
+def big_stack_driver():
+    """the extracted model recurses over prototypes of 20000 records: run it with a large stack"""
+    import os, stat
+    path = os.path.join(core.CACHE, "driver_bigstack.sh")
+    text = "#!/bin/sh\nulimit -s unlimited 2>/dev/null || ulimit -s 4000000 2>/dev/null\nexec %s \"$@\"\n" % core.DRIVER
+    if not os.path.exists(path) or open(path).read() != text:
+        with open(path, "w") as f:
+            f.write(text)
+        os.chmod(path, os.stat(path).st_mode | stat.S_IXUSR | stat.S_IXGRP | stat.S_IXOTH)
+    return path
+
+
 def run_all(cases):
     """cases: list of call lists.  Returns list of dicts(impl, rel, model)."""
     impl = core.ensure_harness("debug")
@@ -422,7 +449,7 @@ def run_all(cases):
     o_impl = core.run_cases(impl, lines)
     o_rel = core.run_cases(rel, lines)
     mlines = [model_line(c, split_out(o)[3]) for c, o in zip(cases, o_impl)]
-    o_model = core.run_cases(core.DRIVER, mlines)
+    o_model = core.run_cases(big_stack_driver(), mlines)
     return [dict(impl=a, rel=b, model=m) for a, b, m in zip(o_impl, o_rel, o_model)]
 
 
@@ -489,6 +516,9 @@ def check_cloud(e, d):
         bad.append(("descriptor", "guid read back %s, written %s" % (d.get("g"), hx(e.guid))))
     if d.get("n") != str(len(e.points)):
         bad.append(("points", "record count %s, %d points were accepted" % (d.get("n"), len(e.points))))
+    want_proto = ",".join("%s=%s" % (name_tok(n), full_type_tok(t)) for n, t in e.proto)
+    if canon_proto(d.get("proto", "")) != canon_proto(want_proto):
+        bad.append(("prototype", "prototype read back %s, written %s" % (d.get("proto", "")[:200], want_proto[:200])))
     txt = ";".join(",".join(p) for p in e.points)
     raw = d.get("raw", "")
     exp_raw = "n=%d end=none h=%s" % (len(e.points), gen.fnv_hex(txt.encode()))
@@ -556,6 +586,38 @@ def check_cloud(e, d):
     if canon_limits(d.get("cl", "-")) != canon_limits(want):
         bad.append(("limits", "colour limits read back %s, expected %s" % (d.get("cl"), want)))
     return bad
+
+
+def full_type_tok(t):
+    p = t.split("/")
+    if p[0] in ("F", "D"):
+        p = (p + ["-", "-"])[:3]
+    return "/".join(p)
+
+
+def canon_proto(s):
+    """NaN payloads in float minima / maxima / scale / offset are not preserved by the text form"""
+    out = []
+    for nt in s.split(","):
+        if "=" not in nt:
+            out.append(nt)
+            continue
+        n, t = nt.split("=", 1)
+        p = t.split("/")
+        if p[0] == "D":
+            p = [p[0]] + [x if x == "-" else "%016x" % canon64(int(x, 16)) for x in p[1:]]
+        elif p[0] == "S":
+            p = p[:3] + ["%016x" % canon64(int(x, 16)) for x in p[3:]]
+        elif p[0] == "F":
+            q = []
+            for x in p[1:]:
+                if x != "-":
+                    b = int(x, 16)
+                    x = "%08x" % (0x7fc00000 if (b & 0x7f800000 == 0x7f800000 and b & 0x007fffff) else b)
+                q.append(x)
+            p = [p[0]] + q
+        out.append(n + "=" + "/".join(p))
+    return ",".join(out)
 
 
 def canon_limits(s):
